@@ -38,7 +38,7 @@ def raiseJson : Raise → Json
 def threadJson (t : Thread) : Json :=
   Json.mkObj [
     ("done", t.pc == .done),
-    ("received", toJson t.received),
+    ("received", toJson (t.received.map (·.2))),
     ("outcome", match t.outcome with | none => Json.null | some r => raiseJson r)]
 
 def parseChoice (j : Json) : Except String (Tid × Bool) := do
@@ -72,7 +72,7 @@ def handle (j : Json) : Except String Json := do
     ("all_done", c.allDone),
     ("enabled", Json.arr ((enabled c).map fun (tid, alt) =>
         Json.arr #[toJson tid, if alt then Json.str "timeout" else Json.null]).toArray),
-    ("q", toJson c.sh.q), ("returned", toJson c.sh.returned), ("exhausted", c.sh.exhausted),
-    ("produced", toJson c.sh.produced), ("lost", toJson c.sh.lost)]
+    ("q", toJson (c.sh.q.map (·.2))), ("returned", toJson c.sh.returned), ("exhausted", c.sh.exhausted),
+    ("produced", toJson (c.sh.produced.map (·.2))), ("lost", toJson (c.sh.lost.map (·.2)))]
 
 end Driver.Queue
